@@ -224,10 +224,33 @@ def compare(case, obs, mline, replay):
 
 
 # ---------------------------------------------------------------- the property's own clauses (no model)
+def impl_n_train(case):
+    """The size of the training part the implementation itself chooses for (n, val_prop)."""
+    s = _setup()
+    x = s["jnp"].zeros((case["n"], 1))
+    tr, _ = s["train_val_split"](s["jr"].PRNGKey(0), (x,), val_prop=case["val_prop"])
+    return int(tr[0].shape[0])
+
+
 def oracle(case, obs, obs2=None):
-    """The statement of C15 evaluated on the observed call list alone."""
+    """The statement of C15 on the observation.  The statement does not fix how val_prop*n is rounded: if the clauses fail
+    with the documented n_train = n - round(val_prop*n) but hold with the split size the implementation itself uses, that is
+    a glue disagreement (reported by the tie), not a failure of the property."""
+    nt_doc = n_train_of(case["n"], case["val_prop"])
+    errs = oracle_nt(case, obs, obs2, nt_doc)
+    if errs:
+        try:
+            nt_i = impl_n_train(case)
+        except Exception:
+            return errs
+        if nt_i != nt_doc and (not 0 < nt_i < case["n"] or not oracle_nt(case, obs, obs2, nt_i)):
+            return []
+    return errs
+
+
+def oracle_nt(case, obs, obs2, nt):
+    """The clauses of C15 evaluated on the observed call list alone, for a split of nt / n - nt rows."""
     n, bs, hc, ep = case["n"], case["bs"], case["has_cond"], case["epochs"]
-    nt = n_train_of(n, case["val_prop"])
     errs = []
     if not (0 < nt < n and bs >= 1):
         return errs  # outside the property's quantifier
@@ -307,7 +330,7 @@ def gen_val_prop(r, n):
 def gen_cases(ctx):
     r = ctx.rng
     nmax, emax = (30, 3) if ctx.quick else (60, 4)
-    N = 220 if ctx.quick else 2400
+    N = 220 if ctx.quick else 4000
     cases = []
     # few (batch size, has_cond) buckets dominate compile time: draw effective batch sizes from a per-run pool + free ones
     pool = sorted({1, 2, 3} | {int(v) for v in r.integers(1, nmax + 1, size=6 if ctx.quick else 40)})
@@ -428,8 +451,15 @@ def report(ctx, unit, case, diffs, errs, obs, mline):
                       calls=[dict(counter=c[0], key=list(c[1]), x_rows=c[2], cond_rows=c[3]) for c in obs["calls"][:40]],
                       differences=diffs[:8], oracle=ferrs[:8]),
         broken="correspondence fit-trace / theorems C15_rows_aligned, C15_epoch_batches, C15_val_never_trained, C15_fresh_keys",
-        reproducer="cd /verif && ./check C15 --replay <this file>",
+        reproducer=_reproducer(fcase),
     )
+
+
+def _reproducer(case):
+    return ("cd /repo && JAX_PLATFORMS=cpu PYTHONPATH=/repo:/verif /venv/bin/python -c \"from harness import common, c15; common.init_jax(); "
+            f"c = {case!r}; o = c15.run_impl(c); "
+            "print(c15.kinds_of(o)); [print(k) for k in o['calls']]; print('failing clauses:', c15.oracle(c, o, c15.run_impl(c)))\""
+            "   # or: cd /verif && ./check C15 --replay <this file>")
 
 
 def _clause_id(msg):
@@ -526,16 +556,16 @@ def unit_split(ctx):
         mtr, mva = (prs(t) for t in out.split("|"))
         u.count(c, nontrivial=0 < nt < n, tag="tie" if (c["val_prop"] * n) % 1 == 0.5 else "other")
         errs = []
-        if len(tr[0]) != nt:
-            errs.append(f"len(train) = {len(tr[0])}, n - round(val_prop*n) = {nt}")
+        glue = len(tr[0]) != nt
         if sorted(tr[0] + va[0]) != list(range(n)):
             errs.append(f"train ++ val is not a permutation of the rows: {tr[0]} ++ {va[0]}")
         if any(a != tr[0] for a in tr) or any(a != va[0] for a in va):
             errs.append(f"arrays are cut along different rows: train {tr} val {va}")
         if errs or tr != mtr or va != mva:
             u.disagreements += 1
-            ctx.violation(sig="train_val_split:" + ("oracle" if errs else "tie"),
-                          what="; ".join(errs) or f"model train/val {mtr}/{mva} != implementation {tr}/{va}",
+            ctx.violation(sig="train_val_split:" + ("oracle" if errs else ("glue" if glue else "tie")),
+                          what="; ".join(errs) or (f"n_train glue: len(train) = {len(tr[0])}, n - round(val_prop*n) = {nt}" if glue else
+                                                   f"model train/val {mtr}/{mva} != implementation {tr}/{va}"),
                           case=dict(fn="train_val_split", **c), found_input=bool(errs), unit=u.name, expected=dict(train=mtr, val=mva),
                           observed=dict(train=tr, val=va), broken="correspondence train_val_split / theorem C15_split_partitions",
                           reproducer="cd /verif && ./check C15 --replay <this file>")
